@@ -20,8 +20,9 @@ struct Sched
 	explicit Sched(asio::io_context& i) : ios(i), timer(new asio::high_resolution_timer(i)) {}
 	void at(std::int64_t t, std::function<void()> fn)
 	{
-		items.push_back(Item{t, seq++, std::move(fn)});
-		std::stable_sort(items.begin(), items.end(), [](Item const& a, Item const& b) { return a.t < b.t; });
+		Item it{t, seq++, std::move(fn)};
+		auto pos = std::upper_bound(items.begin(), items.end(), it, [](Item const& a, Item const& b) { return a.t < b.t; });
+		items.insert(pos, std::move(it));
 		if (started && !firing) { timer->cancel(); arm(); }
 	}
 	bool started = false, firing = false;
@@ -48,7 +49,7 @@ struct Sched
 	}
 };
 
-enum BadKind { GOOD = 0, UNBOUND_PORT, BOUND_NOT_LISTENING, CLOSED_EC, CLOSED_NOARG };
+enum BadKind { GOOD = 0, UNBOUND_PORT, BOUND_NOT_LISTENING, CLOSED_EC, CLOSED_NOARG, REOPENED_NOT_LISTENING };
 
 struct Token { char b[16]; };
 
@@ -286,7 +287,8 @@ struct World
 		// bad targets live on node of acceptor 0, distinct ports
 		Scenario::AccSpec const& a0 = sc.accs[0];
 		ip::tcp::endpoint bad_unbound(a0.addr, 7001), bad_bound(a0.addr, 7002), bad_closed_ec(a0.addr, 7003), bad_closed_noarg(a0.addr, 7004);
-		std::unique_ptr<ip::tcp::acceptor> closed1, closed2;
+		ip::tcp::endpoint bad_reopened(a0.addr, 7005);
+		std::unique_ptr<ip::tcp::acceptor> closed1, closed2, reopened;
 		{
 			error_code ec;
 			misc.emplace_back(new ip::tcp::socket(*ios[std::size_t(a0.node)]));
@@ -298,6 +300,12 @@ struct World
 			closed2.reset(new ip::tcp::acceptor(*ios[std::size_t(a0.node)]));
 			API(closed2->open(a0.addr.is_v4() ? ip::tcp::v4() : ip::tcp::v6(), ec));
 			API(closed2->bind(bad_closed_noarg, ec)); API(closed2->listen(5, ec)); API(closed2->close());
+			// an acceptor that listened, was closed, and is open and bound again but NOT listening
+			reopened.reset(new ip::tcp::acceptor(*ios[std::size_t(a0.node)]));
+			API(reopened->open(a0.addr.is_v4() ? ip::tcp::v4() : ip::tcp::v6(), ec));
+			API(reopened->bind(ip::tcp::endpoint(a0.addr, 7006), ec)); API(reopened->listen(5, ec)); API(reopened->close(ec));
+			API(reopened->open(a0.addr.is_v4() ? ip::tcp::v4() : ip::tcp::v6(), ec));
+			API(reopened->bind(bad_reopened, ec));
 		}
 		// clients
 		for (std::size_t i = 0; i < sc.clis.size(); ++i)
@@ -312,6 +320,7 @@ struct World
 				case UNBOUND_PORT: c.target = bad_unbound; break;
 				case BOUND_NOT_LISTENING: c.target = bad_bound; break;
 				case CLOSED_EC: c.target = bad_closed_ec; break;
+				case REOPENED_NOT_LISTENING: c.target = bad_reopened; break;
 				default: c.target = bad_closed_noarg; break;
 			}
 			std::snprintf(c.tok.mine.b, 16, "C%03d............", int(i));
@@ -336,7 +345,7 @@ struct World
 					error_code e;
 					API(o->remote_late = o->peer->remote_endpoint(e));
 				}
-		closed1.reset(); closed2.reset();
+		closed1.reset(); closed2.reset(); reopened.reset();
 	}
 
 	void teardown()
@@ -377,10 +386,10 @@ void check_world(World& w, bool c13_views)
 		if (c.bad != GOOD)
 		{
 			r.count("connects_to_non_listening_endpoints");
-			static char const* bn[] = {"", "unbound port", "bound but not listening socket", "acceptor closed with close(ec)", "acceptor closed with close()"};
+			static char const* bn[] = {"", "unbound port", "bound but not listening socket", "acceptor closed with close(ec)", "acceptor closed with close()", "acceptor that listened, was closed, re-opened and bound but does not listen"};
 			std::string const kind = bn[c.bad];
 			if (c.done && c.ec == 0)
-				r.violation("C07", c.bad == CLOSED_NOARG ? "connect-succeeds:acceptor-closed-noarg" : "connect-succeeds-without-listener"
+				r.violation("C07", c.bad == CLOSED_NOARG ? "connect-succeeds:acceptor-closed-noarg" : c.bad == REOPENED_NOT_LISTENING ? "connect-succeeds:reopened-acceptor-not-listening" : "connect-succeeds-without-listener"
 					, who + " (" + kind + ") completed successfully");
 			else if (!c.done)
 				r.violation("C07", c.bad == CLOSED_NOARG ? "connect-hangs:acceptor-closed-noarg" : "refusal-never-delivered", who + " (" + kind + ") never completed");
@@ -565,7 +574,7 @@ Scenario gen(Args const& a, Rng& rng, bool nat_focus)
 	{
 		Scenario::CliSpec cs;
 		cs.acc = rng.choose(nacc);
-		cs.bad = rng.coin(1, 5) ? BadKind(1 + rng.choose(4)) : GOOD;
+		cs.bad = rng.coin(1, 5) ? BadKind(1 + rng.choose(5)) : GOOD;
 		bool const need_v4 = (cs.bad == GOOD ? sc.accs[std::size_t(cs.acc)].addr : sc.accs[0].addr).is_v4();
 		// pick a client node that has an address of the target's family
 		std::vector<int> ok;
